@@ -491,7 +491,11 @@ class YAMLPath:
                     seeking_collector_operator = False
                     continue
 
-            elif char == "(":
+            elif (char == "("
+                  and not (demarc_count > 0
+                           and demarc_stack[-1] in ['"', "'"])
+            ):
+                # (A parenthesis within quote demarcation is literal text)
                 if (demarc_count == 1
                     and demarc_stack[-1] == "["
                     and segment_id
@@ -536,6 +540,7 @@ class YAMLPath:
                     demarc_count > 0
                     and char == ")"
                     and segment_type is PathSegmentTypes.KEYWORD_SEARCH
+                    and demarc_stack[-1] not in ['"', "'"]
             ):
                 demarc_count -= 1
                 demarc_stack.pop()
